@@ -481,6 +481,15 @@ static int
 archive_write_client_free(struct archive_write_filter *f)
 {
 	struct archive_write *a = (struct archive_write *)f->archive;
+	struct archive_none *state = (struct archive_none *)f->data;
+
+	/* Not released by close if the archive was never closed
+	 * (archive_write_free() skips the close in state FATAL). */
+	if (state != NULL) {
+		free(state->buffer);
+		free(state);
+		f->data = NULL;
+	}
 
 	if (a->client_freer)
 		(*a->client_freer)(&a->archive, a->client_data);
@@ -551,6 +560,7 @@ archive_write_client_close(struct archive_write_filter *f)
 		(*a->client_closer)(&a->archive, a->client_data);
 	free(state->buffer);
 	free(state);
+	f->data = NULL;
 
 	/* Clear the close handler myself not to be called again. */
 	f->state = ARCHIVE_WRITE_FILTER_STATE_CLOSED;
